@@ -1,6 +1,337 @@
-//! C21: not implemented yet.
+//! C21: update manifests.
+//!
+//! A case builds a chain of manifests on one fixture and reads the result back, untouched and under byte mutations:
+//!   {"fmt": "jpeg"|"png"|"mp4",
+//!    "steps": [ step, ... ],              // applied on top of a base manifest (Create intent, data/bmff hash)
+//!    "muts":  [ {"zone": "pre"|"in"|"post", "num": a, "den": b, "xor": v} | {"zone": "append", "hex": ".."} ]}
+//! step = {"intent": "update"|"edit",      // BuilderIntent
+//!         "via": "builder"|"craft",       // craft: claim from the Builder, altered, committed without update_manifest_test
+//!         "flag": bool,                    // craft only: the update-manifest flag of the committed claim
+//!         "parents": 0|1|2,                // number of parentOf ingredients
+//!         "comps": n,                      // extra componentOf ingredients
+//!         "hash": "none"|"zero",           // craft only: add a c2pa.hash.data assertion (all-zero digest, no exclusions)
+//!         "actions": ["c2pa.edited",...],  // extra actions (after the automatic c2pa.opened when there is a parent)
+//!         "thumbs": n}                     // craft only: n claim-thumbnail assertions
+//! out: sign result of every step, manifest labels, the manifest-store region of parent and final asset, the top-level
+//! layout of the final asset, the report of the untouched read and one (state, failure codes) per mutation.
+use std::{cell::RefCell, collections::HashMap, io::Cursor, sync::Arc};
+
+use c2pa::{
+    assertions::{DataHash, EmbeddedData},
+    Builder, BuilderIntent, Context, Reader,
+};
 use serde_json::{json, Value};
 
-pub fn run(_case: &Value) -> Value {
-    json!({"r": "unimplemented"})
+use crate::{e2e, util::*};
+
+thread_local! {
+    static CTX: Arc<Context> = Arc::new(e2e::context(None));
+    static CTX_NOVERIFY: Arc<Context> = Arc::new(e2e::context(Some(r#"{"verify": {"verify_after_sign": false}}"#)));
+    /// per format: (base asset, its label, second independent asset) — signed once per harness process
+    static COUNTER: RefCell<u64> = const { RefCell::new(0) };
+    static BASES: RefCell<HashMap<String, (Vec<u8>, String, Vec<u8>)>> = RefCell::new(HashMap::new());
+}
+
+pub fn format_of(fmt: &str) -> (&'static str, &'static str) {
+    match fmt {
+        "png" => ("image/png", "libpng-test.png"),
+        "mp4" => ("video/mp4", "video1_no_manifest.mp4"),
+        _ => ("image/jpeg", "no_manifest.jpg"),
+    }
+}
+
+const C2PA_UUID: [u8; 16] = [0xd8, 0xfe, 0xc3, 0xd6, 0x1b, 0x0e, 0x48, 0x3c, 0x92, 0x97, 0x58, 0x28, 0x87, 0x7e, 0xc4, 0x81];
+
+/// top-level layout: (name, offset, length, is_c2pa)
+pub fn layout(fmt: &str, d: &[u8]) -> Vec<(String, usize, usize, bool)> {
+    let mut out = vec![];
+    let be = |o: usize, n: usize| -> usize { d[o..o + n].iter().fold(0usize, |a, b| (a << 8) | *b as usize) };
+    match fmt {
+        "png" => {
+            out.push(("sig".to_string(), 0, 8.min(d.len()), false));
+            let mut o = 8;
+            while o + 12 <= d.len() {
+                let l = be(o, 4);
+                let t = String::from_utf8_lossy(&d[o + 4..o + 8]).to_string();
+                let n = (12 + l).min(d.len() - o);
+                out.push((t.clone(), o, n, t == "caBX"));
+                o += n;
+            }
+            if o < d.len() {
+                out.push(("tail".to_string(), o, d.len() - o, false));
+            }
+        }
+        "mp4" => {
+            let mut o = 0;
+            while o + 8 <= d.len() {
+                let mut l = be(o, 4);
+                let t = String::from_utf8_lossy(&d[o + 4..o + 8]).to_string();
+                if l == 1 && o + 16 <= d.len() {
+                    l = be(o + 8, 8);
+                } else if l == 0 {
+                    l = d.len() - o;
+                }
+                let l = l.max(8).min(d.len() - o);
+                let c = t == "uuid" && o + 24 <= d.len() && d[o + 8..o + 24] == C2PA_UUID;
+                out.push((t, o, l, c));
+                o += l;
+            }
+            if o < d.len() {
+                out.push(("tail".to_string(), o, d.len() - o, false));
+            }
+        }
+        _ => {
+            out.push(("SOI".to_string(), 0, 2.min(d.len()), false));
+            let mut o = 2;
+            while o + 4 <= d.len() && d[o] == 0xff {
+                let m = d[o + 1];
+                if m == 0xda {
+                    break;
+                }
+                let l = (2 + be(o + 2, 2)).min(d.len() - o);
+                let c = m == 0xeb && o + 6 <= d.len() && &d[o + 4..o + 6] == b"JP";
+                out.push((format!("{m:02x}"), o, l, c));
+                o += l;
+            }
+            if o < d.len() {
+                out.push(("scan".to_string(), o, d.len() - o, false));
+            }
+        }
+    }
+    out
+}
+
+/// [start, length) of the run of C2PA segments (0,0 when there is none)
+pub fn region(l: &[(String, usize, usize, bool)]) -> (usize, usize) {
+    let mut s = None;
+    let mut e = 0;
+    for (_, o, n, c) in l {
+        if *c {
+            if s.is_none() {
+                s = Some(*o);
+            }
+            e = o + n;
+        }
+    }
+    match s {
+        Some(s) => (s, e - s),
+        None => (0, 0),
+    }
+}
+
+pub fn read_report(format: &str, bytes: &[u8], labels: &[String], full: bool) -> Value {
+    let ctx = CTX.with(|c| c.clone());
+    match Reader::from_shared_context(&ctx).with_stream(format, Cursor::new(bytes.to_vec())) {
+        Ok(r) => {
+            let rep = e2e::report(&r);
+            // which manifest carried the hard-binding verdict: (code, index of the manifest in the chain), from the
+            // unfiltered validation log (the report drops statuses already recorded in ingredient assertions)
+            let mut binding = vec![];
+            let items = if full { c2pa::verif_hooks::c21::full_validation_log(format, bytes, &ctx).1 } else { vec![] };
+            for (c, u, _f) in items {
+                if c.contains("Hash.m") || c.contains("hardBindings") {
+                    let idx = labels.iter().position(|l| u.contains(l.as_str())).map(|i| i as i64).unwrap_or(-1);
+                    binding.push(json!([c, idx]));
+                }
+            }
+            let ing_fail: Vec<Value> = rep["deltas"].as_array().map(|a| a.iter().map(|d| d["failure"].clone()).collect()).unwrap_or_default();
+            json!({"r": "ok", "state": rep["state"], "failure": rep["failure"], "binding": binding, "ing_failure": ing_fail,
+                   "active": labels.iter().position(|l| Some(l.as_str()) == r.active_label()).map(|i| i as i64).unwrap_or(-1)})
+        }
+        Err(e) => json!({"r": "err", "kind": err_class(&e)}),
+    }
+}
+
+fn new_label() -> String {
+    let n = COUNTER.with(|c| {
+        *c.borrow_mut() += 1;
+        *c.borrow()
+    });
+    format!("urn:c2pa:{:08x}-0000-4000-8000-{:012x}", std::process::id(), n)
+}
+
+fn definition(title: &str, label: &str, actions: &[String]) -> String {
+    let mut d = json!({
+        "title": title,
+        "label": label,
+        "claim_generator_info": [{"name": "verif-harness", "version": "0.1"}],
+        "assertions": [{"label": "com.verif.note", "data": {"note": title}}]
+    });
+    if !actions.is_empty() {
+        let acts: Vec<Value> = actions.iter().map(|a| json!({"action": a})).collect();
+        d["assertions"].as_array_mut().expect("arr").push(json!({"label": "c2pa.actions", "data": {"actions": acts}}));
+    }
+    d.to_string()
+}
+
+/// one step on top of `prev` (a signed asset); returns the new asset
+fn step(format: &str, prev: &[u8], other: &[u8], st: &Value, k: usize, label: &str) -> c2pa::Result<Vec<u8>> {
+    let craft = st["via"].as_str().unwrap_or("builder") == "craft";
+    let ctx = if craft { CTX_NOVERIFY.with(|c| c.clone()) } else { CTX.with(|c| c.clone()) };
+    let actions: Vec<String> = st["actions"].as_array().map(|a| a.iter().map(|x| x.as_str().unwrap_or("").to_string()).collect()).unwrap_or_default();
+    let parents = st["parents"].as_u64().unwrap_or(1);
+    let mut acts = actions.clone();
+    if parents == 0 {
+        // keeps the Builder from adding the parent ingredient on its own
+        acts.insert(0, "c2pa.opened".to_string());
+    }
+    let mut b = Builder::from_shared_context(&ctx).with_definition(definition(&format!("step {k}"), label, &acts))?;
+    b.set_intent(if st["intent"].as_str().unwrap_or("update") == "edit" { BuilderIntent::Edit } else { BuilderIntent::Update });
+    if parents >= 2 {
+        b.add_ingredient_from_stream(json!({"relationship": "parentOf", "label": "p0"}).to_string(), format, &mut Cursor::new(prev.to_vec()))?;
+        for i in 1..parents {
+            b.add_ingredient_from_stream(json!({"relationship": "parentOf", "label": format!("p{i}")}).to_string(), format, &mut Cursor::new(other.to_vec()))?;
+        }
+    }
+    for i in 0..st["comps"].as_u64().unwrap_or(0) {
+        b.add_ingredient_from_stream(json!({"relationship": "componentOf", "label": format!("c{i}")}).to_string(), format, &mut Cursor::new(other.to_vec()))?;
+    }
+    let signer = e2e::signer("ed25519");
+    let mut src = Cursor::new(prev.to_vec());
+    let mut dst = Cursor::new(Vec::new());
+    if !craft {
+        b.sign(signer.as_ref(), format, &mut src, &mut dst)?;
+        return Ok(dst.into_inner());
+    }
+    let mut claim = b.verif_c21_prepare_claim(format, &mut src)?;
+    if st["hash"].as_str().unwrap_or("none") == "zero" {
+        let mut dh = DataHash::new("jumbf manifest", "sha256");
+        dh.set_hash(vec![0u8; 32]);
+        claim.add_assertion(&dh)?;
+    }
+    for _ in 0..st["thumbs"].as_u64().unwrap_or(0) {
+        claim.add_assertion(&EmbeddedData::new("c2pa.thumbnail.claim", "image/jpeg", e2e::fixture("thumbnail.jpg")[..600].to_vec()))?;
+    }
+    let flag = st["flag"].as_bool().unwrap_or(true);
+    b.verif_c21_sign_claim(claim, Some(flag), signer.as_ref(), format, &mut src, &mut dst)?;
+    Ok(dst.into_inner())
+}
+
+pub fn base_asset(format: &str, src: &[u8], title: &str, label: &str) -> c2pa::Result<Vec<u8>> {
+    let def = json!({
+        "title": title,
+        "label": label,
+        "claim_generator_info": [{"name": "verif-harness", "version": "0.1"}],
+        "assertions": [
+            {"label": "c2pa.actions", "data": {"actions": [{"action": "c2pa.created",
+              "digitalSourceType": "http://cv.iptc.org/newscodes/digitalsourcetype/digitalCapture"}]}},
+            {"label": "com.verif.note", "data": {"note": title}}
+        ]
+    })
+    .to_string();
+    let ctx = CTX.with(|c| c.clone());
+    let mut b = Builder::from_shared_context(&ctx).with_definition(def)?;
+    let mut input = Cursor::new(src.to_vec());
+    let mut out = Cursor::new(Vec::new());
+    b.sign(e2e::signer("ed25519").as_ref(), format, &mut input, &mut out)?;
+    Ok(out.into_inner())
+}
+
+pub fn active_label(format: &str, bytes: &[u8]) -> String {
+    let ctx = CTX.with(|c| c.clone());
+    match Reader::from_shared_context(&ctx).with_stream(format, Cursor::new(bytes.to_vec())) {
+        Ok(r) => r.active_label().unwrap_or("").to_string(),
+        Err(_) => String::new(),
+    }
+}
+
+pub fn run(case: &Value) -> Value {
+    if case["op"].as_str() == Some("facts") {
+        return json!({"r": "ok", "allowed": c2pa::verif_hooks::c21::allowed_update_manifest_actions()});
+    }
+    let fmt = case["fmt"].as_str().unwrap_or("jpeg");
+    let (format, fx) = format_of(fmt);
+    let cached = BASES.with(|m| m.borrow().get(fmt).cloned());
+    let (mut asset, base_label, other) = match cached {
+        Some(t) => t,
+        None => {
+            let src = e2e::fixture(fx);
+            let bl = new_label();
+            let a = match base_asset(format, &src, "base", &bl) {
+                Ok(a) => a,
+                Err(e) => return json!({"r": "base-sign-failed", "kind": err_class(&e)}),
+            };
+            // a second, independent signed asset (second parent / components)
+            let o = match base_asset(format, &src, "other", &new_label()) {
+                Ok(a) => a,
+                Err(e) => return json!({"r": "base-sign-failed", "kind": err_class(&e)}),
+            };
+            if active_label(format, &a) != bl {
+                return json!({"r": "base-sign-failed", "kind": "label-not-kept"});
+            }
+            let t = (a.clone(), bl, o);
+            BASES.with(|m| m.borrow_mut().insert(fmt.to_string(), t.clone()));
+            t
+        }
+    };
+    let mut labels = vec![base_label];
+    let mut signs = vec![];
+    let mut parent_region = region(&layout(fmt, &asset));
+    let mut regions = vec![json!([parent_region.0, parent_region.1])];
+    let empty = vec![];
+    for (k, st) in case["steps"].as_array().unwrap_or(&empty).iter().enumerate() {
+        let lbl = new_label();
+        match step(format, &asset, &other, st, k, &lbl) {
+            Ok(a) => {
+                parent_region = region(&layout(fmt, &asset));
+                asset = a;
+                let rg = region(&layout(fmt, &asset));
+                regions.push(json!([rg.0, rg.1]));
+                labels.push(lbl);
+                signs.push(json!("ok"));
+            }
+            Err(e) => {
+                signs.push(json!(err_class(&e)));
+                return json!({"r": "sign-refused", "signs": signs, "detail": format!("{e}").chars().take(160).collect::<String>()});
+            }
+        }
+    }
+    if let Some(p) = case["dump"].as_str() {
+        std::fs::write(p, &asset).ok();
+    }
+    let lay = layout(fmt, &asset);
+    let (rs, rl) = region(&lay);
+    let base = read_report(format, &asset, &labels, true);
+    let mut muts = vec![];
+    for m in case["muts"].as_array().unwrap_or(&empty) {
+        let mut a = asset.clone();
+        let zone = m["zone"].as_str().unwrap_or("post");
+        let mut in_c2pa = false;
+        let (pos, seg) = if zone == "append" {
+            a.extend_from_slice(&hexd(&m["hex"]));
+            (asset.len(), "append".to_string())
+        } else {
+            let (zs, zl) = match zone {
+                "pre" => (0, rs),
+                "in" => (rs, rl),
+                "seg" => {
+                    // the k-th top-level segment with the given name
+                    let name = m["name"].as_str().unwrap_or("");
+                    let k = m["k"].as_u64().unwrap_or(0) as usize;
+                    lay.iter().filter(|s| s.0 == name).nth(k).map(|s| (s.1, s.2)).unwrap_or((0, 0))
+                }
+                _ => (rs + rl, asset.len() - rs - rl),
+            };
+            if zl == 0 {
+                muts.push(json!({"r": "empty-zone"}));
+                continue;
+            }
+            let num = m["num"].as_u64().unwrap_or(0) as u128;
+            let den = m["den"].as_u64().unwrap_or(1).max(1) as u128;
+            let pos = zs + (((zl as u128 - 1) * num.min(den)) / den) as usize;
+            a[pos] ^= (m["xor"].as_u64().unwrap_or(1) as u8).max(1);
+            let sg = lay.iter().find(|(_, o, n, _)| *o <= pos && pos < o + n);
+            in_c2pa = sg.map(|s| s.3).unwrap_or(false);
+            (pos, sg.map(|s| s.0.clone()).unwrap_or_default())
+        };
+        let mut r = read_report(format, &a, &labels, false);
+        r["c2pa"] = json!(in_c2pa);
+        r["pos"] = json!(pos);
+        r["seg"] = json!(seg);
+        muts.push(r);
+    }
+    json!({"r": "ok", "signs": signs, "n_manifests": labels.len(), "len": asset.len(), "region": [rs, rl],
+           "parent_region": [parent_region.0, parent_region.1], "regions": regions,
+           "layout": lay.iter().map(|(t, o, n, c)| json!([t, o, n, c])).collect::<Vec<_>>(),
+           "base": base, "muts": muts})
 }
